@@ -572,9 +572,13 @@ func stKillOrShutdown(h *Hist, r *mon.Rand, fn, kind string) *Call {
 	var p *stProv
 	mut := ""
 	switch {
-	case len(st.dead(list)) > 0 && h.stHostile(r, 0.4):
+	case len(st.dead(list)) > 0 && (h.stHostile(r, 0.4) || (!st.NoHostile && r.Chance(0.2))):
 		dd := st.dead(list)
 		p, mut = dd[r.Intn(len(dd))], "already-dead"
+		// mostly the other way of dying than the one it died of (kill after shutdown, shutdown after kill)
+		if ksOther := ksDeadBy(dd, map[string]string{"kill": "shutdown", "shutdown": "killed"}[fn]); len(ksOther) > 0 && r.Chance(0.6) {
+			p = ksOther[r.Intn(len(ksOther))]
+		}
 	case len(live) >= min || (len(live) > 0 && kind == "blobber" && h.stHostile(r, 0.3)):
 		p = live[r.Intn(len(live))]
 	default:
